@@ -43,6 +43,7 @@ type Ctx struct {
 	notes        []string
 	isBroken     string
 	rule         string
+	hard         int
 
 	pools      []*Pool
 	scratch    string
@@ -176,16 +177,35 @@ func (x *Ctx) Bad(c *proto.Case, r *proto.Result) bool {
 		x.mu.Unlock()
 		return true
 	case r.Crash != "":
+		x.hardFailure()
 		x.Viol("crash:"+crashSignature(r.Crash+"\n"+r.OSErr), "worker process died while running the case: "+trunc(r.Crash, 200), c, map[string]any{"crash": r.Crash, "oserr": trunc(r.OSErr, 6000)}, "process survives")
 		return true
 	case r.TimedOut && r.NoProgress:
+		x.hardFailure()
 		x.Viol("hang:"+hangSignature(r.Dump), "case did not finish and made no progress over three samples", c, map[string]any{"dump": trunc(r.Dump, 8000)}, "case finishes")
 		return true
 	case r.TimedOut:
+		x.hardFailure()
 		x.Inconclusive("watchdog expired while progress was still observed")
 		return true
 	}
 	return false
+}
+
+// hardFailure counts crashes and watchdog expiries; after 24 of them the
+// remaining cases of the run are dropped (each costs a full watchdog period
+// and the verdict is already decided)
+func (x *Ctx) hardFailure() {
+	x.mu.Lock()
+	x.hard++
+	n := x.hard
+	x.mu.Unlock()
+	if n == 24 {
+		for _, p := range x.pools {
+			p.Stop.Store(true)
+		}
+		fmt.Printf("NOTE property=%s 24 crashes/hangs observed: remaining cases are dropped\n", x.P.ID)
+	}
 }
 
 func trunc(s string, n int) string {
@@ -407,6 +427,13 @@ func (x *Ctx) finish(wall time.Duration) int {
 	for _, p := range x.pools {
 		spawned += p.Spawned.Load()
 		crashes += p.Crashes.Load()
+	}
+	var dropped int64
+	for _, p := range x.pools {
+		dropped += p.Dropped.Load()
+	}
+	if dropped > 0 {
+		cov["cases_dropped_after_repeated_crashes_or_hangs"] = dropped
 	}
 	cov["worker_processes"] = spawned
 	cov["worker_crashes"] = crashes
